@@ -202,6 +202,11 @@ def in_closed_hull(v, ring):
     return len(sg) <= 1
 
 
+def _plain_boxes_meet(a, b):
+    """two (min_lon, min_lat, max_lon, max_lat) tuples read as ordinary closed ranges overlap on both axes"""
+    return max(a[0], b[0]) <= min(a[2], b[2]) and max(a[1], b[1]) <= min(a[3], b[3])
+
+
 READABLE = ('bounds', 'convex_hull', 'len', 'centroid', 'geospan')
 # observations of a collection that are functions of its members alone (history family R, see gen_history_case)
 HREAD_FC = ('bounds', 'geospan', 'convex_hull', 'len', 'centroid')
@@ -253,7 +258,7 @@ def run_case(spec):
     fails, stats = [], {'steps': 0, 'skipped': 0, 'asym': 0, 'proper': 0, 'results': 0, 'shrunk': 0, 'hulls': 0, 'classes': [],
                     'coll_pairs': 0, 'coll_eq_pairs': 0, 'coll_split': 0, 'coll_split_first_true': 0,
                     'hist_results': 0, 'hist_deep': 0, 'hist_cut_after_read': 0, 'hist_grown_after_read': 0, 'hist_cut_unread': 0,
-                    'hist_full': 0}
+                    'hist_full': 0, 'true_apart': 0, 'true_apart_wrap': 0}
     readlog = {}            # id(collection) -> names of the observations read on it so far (by this harness)
     extras = []             # literals of the shapes brought in by `+` inside history chains (ids 200..)
 
@@ -507,6 +512,12 @@ def run_case(spec):
                     stats['skipped'] += 1
                     continue
                 tab = [(i, p[1]) for i, p in zip(mids, per)]
+                qb = guarded(lambda: tuple(q.bounds))
+                if qb[0] == 'Ok':      # coverage only: predicate true although the two .bounds boxes, read as plain ranges, are apart
+                    for x, p_ in zip(members, per):
+                        if p_[1] and not _plain_boxes_meet(x.bounds, qb[1]):
+                            stats['true_apart'] += 1
+                            stats['true_apart_wrap'] += x.bounds[0] > x.bounds[2] or qb[1][0] > qb[1][2]
                 for a, b in coll_ne:
                     if per[a][1] != per[b][1]:
                         stats['coll_split'] += 1
@@ -1026,6 +1037,109 @@ def gen_history_case(rng):
     return {'kind': kind, 'shapes': shapes, 'steps': steps, 'pre': reads() if rng.random() < 0.5 else [], 'family': 'history'}
 
 
+# ---- W. curved shapes whose .bounds do not enclose them -------------------------------------
+# Mechanism class: a filter that decides (or pre-selects, indexes, sorts, prunes) from a SUMMARY of the shapes -
+# .bounds boxes, centroids, a grid / R-tree keyed on them, "nearby" tests - instead of asking the per-shape predicate
+# for every member.  Such a shortcut is only as good as the summary, and the library's bounds of circles, ellipses and
+# rings (two corner points at bearings 315 / 135) are not enclosing boxes: (a) when the shape reaches across the 180th
+# meridian they come out with min_lon > max_lon, so every plain range comparison fails; (b) away from the equator the
+# corner points fall short of the poleward extent by about r^2 tan(lat) / 2R (1.4 km for 100 km at 60 N), so a cap of
+# the shape lies outside its own bounds.  Each case holds 1-3 such shapes (circle / ellipse / ring; 5-80 km across the
+# meridian at |lat| <= 60, 50-300 km at |lat| 55-80, or both) together with probes placed from the shape's own
+# geometry: points, small boxes, small circles and short lines on BOTH sides of the meridian at 0.2-1.5 radii, in the
+# poleward cap between the corner-derived bound and the true extent, just short of the bound and just beyond the cap.
+# The curved shapes and the probes serve both as members and as queries of all three spatial filters (and chains);
+# results are compared by identity with the plain per-shape scan x.intersects(q) / x.contains(q) / q.contains(x).
+def _wrap_lon(x):
+    return round((x + 180.0) % 360.0 - 180.0, 6)
+
+
+def gen_curved_case(rng):
+    import math
+    M = 111_195.0
+    kind = rng.choice(['FC', 'FC', 'TR'])
+    mode = rng.choice(['dateline', 'polar', 'polar', 'polar-dateline'])
+    pole = rng.choice([-1, 1])
+    if mode == 'dateline':
+        lat0, r = round(rng.uniform(-60, 60), 3), float(rng.choice([5, 10, 20, 40, 80])) * 1000
+    else:
+        lat0, r = round(pole * rng.uniform(55, 80), 3), float(rng.randint(50, 300)) * 1000
+    if lat0 < 0:
+        pole = -1
+    elif lat0 > 0:
+        pole = 1
+    mlon = M * math.cos(math.radians(lat0))                       # metres per degree of longitude at the centre
+    if mode == 'polar':
+        lon0 = round(rng.uniform(-170, 170), 3)
+    else:
+        lon0 = _wrap_lon(rng.choice([-1, 1]) * 180.0 + rng.choice([-1, 1]) * rng.uniform(0.02, 0.9) * r / mlon)
+    nodt = 0.4 if kind == 'FC' else 0.0
+
+    def curved(k, x, y, rr):
+        if k == 'circle':
+            return {'k': k, 'g': [x, y, rr]}
+        if k == 'ellipse':
+            return {'k': k, 'g': [x, y, rr, round(rr * rng.uniform(0.3, 0.9)), rng.choice([0, 30, 90, 135])]}
+        return {'k': 'ring', 'g': [x, y, round(rr * rng.uniform(0.05, 0.5)), rr]}
+
+    big = curved(rng.choice(['circle', 'circle', 'ellipse', 'ring']), lon0, lat0, r)
+    curves = [big]
+    if rng.random() < 0.6:        # a second one, shifted by a fraction of the radius (overlapping the first)
+        curves.append(curved(rng.choice(['circle', 'ellipse', 'ring']), _wrap_lon(lon0 + rng.uniform(-0.8, 0.8) * r / mlon),
+                             round(lat0 + rng.uniform(-0.5, 0.5) * r / M, 4), round(r * rng.uniform(0.4, 1.0))))
+    if rng.random() < 0.4:        # a control that stays clear of the meridian / is small
+        curves.append(curved('circle', _wrap_lon(lon0 + rng.choice([-1, 1]) * 3 * r / mlon), lat0, 2000.0))
+    b = build(dict(big, dt=None)).bounds
+    edge = b[3] if pole > 0 else b[1]                             # the corner-derived poleward bound
+    top = lat0 + pole * r / M                                     # the poleward extent of a circle / ring of radius r
+    capw = max(abs(top - edge), 1e-4)
+    spots = []                                                    # (lon, lat) placed from the geometry
+    for f in (0.2, 0.6, 0.95, 1.1, 1.5):
+        for sgn in (-1, 1):
+            spots.append((_wrap_lon(lon0 + sgn * f * r / mlon), lat0))
+    for f in (-2.0, -0.3, 0.15, 0.5, 0.85, 1.3, 3.0):
+        spots.append((_wrap_lon(lon0 + rng.uniform(-0.02, 0.02) * r / mlon), round(edge + pole * f * capw, 6)))
+    for _ in range(3):
+        a = rng.uniform(0, 2 * math.pi)
+        f = rng.choice([0.3, 0.9, 0.99, 1.05])
+        spots.append((_wrap_lon(lon0 + f * r * math.sin(a) / mlon), round(lat0 + f * r * math.cos(a) / M, 6)))
+
+    def probe(x, y):
+        k = rng.choice(['pt', 'pt', 'pt', 'box', 'circle', 'line'])
+        if k == 'pt':
+            return {'k': k, 'g': [x, y]}
+        if k == 'box':
+            w, h = min(0.05, abs(180 - abs(x)) / 2 or 0.01), 0.3 * capw
+            if abs(x) + w >= 180:
+                return {'k': 'pt', 'g': [x, y]}
+            return {'k': k, 'g': [round(x - w, 6), round(y - h, 6), round(x + w, 6), round(y + h, 6)]}
+        if k == 'circle':
+            return {'k': k, 'g': [x, y, float(rng.choice([200, 1000, 3000]))]}
+        x2 = _wrap_lon(x + rng.uniform(-0.5, 0.5) * r / mlon)
+        if abs(x2 - x) > 180:                                     # a line is drawn the short way only if it stays on one side
+            x2 = x
+        return {'k': k, 'g': [[x, y], [x2, round(y + pole * rng.uniform(0.5, 3) * capw, 6)]]}
+
+    def dress(g, p_none):
+        return dict(g, dt=gen_dt(rng, p_none), props={'color': rng.choice(['red', 'blue']), 'n': rng.randint(0, 5)},
+                    sty=rng.choice(['utc', 'utc', 120]), bare=False)
+
+    probes = [probe(x, y) for x, y in spots]
+    members = [dress(g, nodt) for g in rng.sample(probes, rng.randint(4, 9))] + [dress(c, nodt) for c in curves]
+    rng.shuffle(members)
+    steps = []
+    for g in curves + rng.sample(probes, 5):
+        u = rng.random()
+        q = dict(g, dt=None if u < 0.7 else gen_dt(rng, 0.0), props={})
+        for f in ('int', 'contains', 'contained_by'):
+            steps.append([f, q])
+    sel = list(steps)
+    for _ in range(2):
+        steps.append(['chain', rng.choice(sel), rng.choice(sel), rng.sample(READABLE, rng.randint(0, 2))])
+    steps.append(['len'])
+    return {'kind': kind, 'shapes': members, 'steps': steps, 'pre': rng.sample(READABLE, rng.randint(0, 2)), 'family': 'curved:' + mode}
+
+
 def main():
     ck = Check('C18')
     ck.build_theories(['theories/Props/C18.vo', 'theories/Corr/FilterK.vo'])
@@ -1037,7 +1151,8 @@ def main():
     cases, meta, failing = [], [], {}
     tot = {'steps': 0, 'skipped': 0, 'asym': 0, 'proper': 0, 'results': 0, 'shrunk': 0, 'hulls': 0,
            'coll_pairs': 0, 'coll_eq_pairs': 0, 'coll_split': 0, 'coll_split_first_true': 0,
-           'hist_results': 0, 'hist_deep': 0, 'hist_cut_after_read': 0, 'hist_grown_after_read': 0, 'hist_cut_unread': 0, 'hist_full': 0}
+           'hist_results': 0, 'hist_deep': 0, 'hist_cut_after_read': 0, 'hist_grown_after_read': 0, 'hist_cut_unread': 0, 'hist_full': 0,
+           'true_apart': 0, 'true_apart_wrap': 0}
     for _ in range(600 if quick else 12000):
         spec = gen_case(rng)
         lit, m, fails, stats = run_case(spec)
@@ -1078,6 +1193,21 @@ def main():
         ck.count('history:' + spec['kind'])
         for c in stats['classes']:
             ck.count('op:' + c)
+    # W. curved shapes across the 180th meridian / large at high latitude (see gen_curved_case)
+    for _ in range(120 if quick else 1500):
+        spec = gen_curved_case(rng)
+        lit, m, fails, stats = run_case(spec)
+        cases.append(lit)
+        meta.append(m)
+        if fails:
+            failing[len(cases) - 1] = fails
+        for k in tot:
+            tot[k] += stats[k]
+        ck.count(spec['family'] + ':' + spec['kind'])
+        for c in stats['classes']:
+            ck.count('op:' + c)
+    ck.cov['intersecting_member/query_pairs_whose_.bounds_boxes_read_as_plain_ranges_are_apart'] = tot['true_apart']
+    ck.cov['of_which_one_of_the_two_bounds_wraps_the_180th_meridian'] = tot['true_apart_wrap']
     ck.cov['history_results_(every_level_of_every_chain)'] = tot['hist_results']
     ck.cov['history_results_derived_from_a_result'] = tot['hist_deep']
     ck.cov['history_results_SMALLER_in_extent_than_a_parent_whose_bounds/geospan/hull_were_read_before'] = tot['hist_cut_after_read']
@@ -1159,6 +1289,10 @@ def main():
                    'convex_hull / len / centroid (Tracks: + centroid_distances, time_start_diffs, has_duplicate_timestamps, speed_diffs, first, '
                    'last, start, end) read on each collection just before it is derived from, every result at every level compared in ALL those '
                    'observations with a freshly constructed collection of the same members, right away and again after it was derived from; '
+                   'then CURVED shapes whose .bounds do not enclose them (family W): circles / ellipses / rings reaching across the 180th meridian '
+                   '(bounds with min_lon > max_lon) and 50-300 km ones at |lat| 55-80 (corner-derived bounds short of the poleward extent), with '
+                   'points / small boxes / small circles / lines on both sides of the meridian, inside the poleward cap, just short of the bound and '
+                   'just beyond the cap, each serving as member and as query of the three spatial filters and chains, by identity against the scan; '
                    'EVERY result (filter, +, slice, chained filter): bounds = coll_bounds of exactly its members (Coq, FRes), hull vertices '
                    'among its members\' vertices and containing all of them (exact integers), len/iter/bool; source re-read at the end. '
                    'evaluations = collections built + step results compared + results whose derived attributes were read. '
